@@ -94,7 +94,10 @@ class Ctx:
                 self.sched.yield_point(('on_miss',))
             if isinstance(key, tuple) and key[:1] == ('side',):
                 return ('miss', key)
-            if kind == 'reent_set':
+            if kind == 'reent_same':
+                # a read-ahead loader: stores the missing key itself before returning its value
+                self.cache[key] = ('pre', key)
+            elif kind == 'reent_set':
                 self.cache[('side', key)] = ('sideval', key)
             elif kind == 'reent_get':
                 self.cache.get(('side', key), None)
